@@ -35,8 +35,8 @@ func verifPlace(t *rapid.T, name string, content []byte) *verifGArg {
 	return a
 }
 
-func (a *verifGArg) p() *byte       { return (*byte)(a.buf.Ptr()) }
-func (a *verifGArg) p32() *uint32   { return (*uint32)(a.buf.Ptr()) }
+func (a *verifGArg) p() *byte     { return (*byte)(a.buf.Ptr()) }
+func (a *verifGArg) p32() *uint32 { return (*uint32)(a.buf.Ptr()) }
 func verifBlame(f *guard.Fault, args []*verifGArg) (string, string) {
 	for _, a := range args {
 		if w := a.buf.Where(f.Addr); w != "" {
